@@ -317,3 +317,27 @@ v3_flags_len!(v3_flags_len_0, 0, 65);
 v3_flags_len!(v3_flags_len_1, 1, 66);
 //@ C01 thorough timeout=5400 optional | v3 message whose msgFlags has 2 arbitrary octets: rejected
 v3_flags_len!(v3_flags_len_2, 2, 67);
+
+std_stubs_harness! {
+//@ C16 quick | PDU wrapper (SnmpOption): a2 03 x y z followed by two arbitrary octets: value is exactly the 3 content octets, rest exactly the 2 following octets
+fn option_extent() {
+    let c: [u8; 5] = kani::any();
+    let b = [0xa2u8, 3, c[0], c[1], c[2], c[3], c[4]];
+    let (tail, opt) = SnmpOption::from_ber(&b).expect("well-formed wrapper");
+    assert!(opt.tag == 2 && opt.value.len() == 3 && opt.value.as_ptr() as usize == b.as_ptr() as usize + 2, "option_value_is_its_content");
+    assert!(tail.len() == 2 && tail.as_ptr() as usize == b.as_ptr() as usize + 5, "option_rest_is_following_octets");
+    kani::cover!(true, "decoded");
+}
+}
+
+std_stubs_harness! {
+//@ C16 quick | v2c GetResponse frame whose PDU length is DEcreased by 2 (two octets left over inside the message after the PDU, inner lengths now overrun the PDU): rejected
+fn under_length_pdu() {
+    let mut b = V2C_RESP;
+    b[11] -= 2;
+    let r = SnmpV2cMessage::try_from(&b[..]);
+    assert!(r.is_err(), "inner_elements_past_shortened_pdu_accepted");
+    kani::cover!(true, "rejected");
+    core::mem::forget(r);
+}
+}
